@@ -335,7 +335,10 @@ impl<'a> Gen<'a> {
             }
             threads.retain(|t| !t.is_empty());
             labels.push("long".into());
-            let schedule = if plain_seq { json!({"kind": "none"}) } else { json!({"kind": "random", "seed": rng.next_u64()}) };
+            let mut schedule = if plain_seq { json!({"kind": "none"}) } else { json!({"kind": "random", "seed": rng.next_u64()}) };
+            // many distinct files in one process: with at most 64 descriptors open at a time
+            schedule["rlimit_nofile"] = json!(64);
+            labels.push("rlimit-nofile".into());
             return History { threads, schedule, faults: vec![], flavour: if plain_seq { "plain-seq" } else { "sim" }, fault_focused: false, labels };
         }
         let mut threads: Vec<Vec<Value>> = vec![];
@@ -434,6 +437,10 @@ impl<'a> Gen<'a> {
         if !plain_seq && rng.chance(1, 2) {
             schedule["fine"] = json!(true);
             labels.push("fine".into());
+        }
+        if rng.chance(1, 8) {
+            schedule["rlimit_nofile"] = json!(40);
+            labels.push("rlimit-nofile".into());
         }
         History {
             threads,
